@@ -11,7 +11,7 @@ Lean build then fails on the first use, which the check reports as a broken tie.
 import json, os, re, sys
 
 REPO = os.environ.get("SST_REPO", "/repo")
-OUT = os.path.join(os.path.dirname(os.path.abspath(__file__)), "..", "lean", "SstModel", "Generated", "Consts.lean")
+OUT = os.environ.get("SST_CONSTS_OUT") or os.path.join(os.path.dirname(os.path.abspath(__file__)), "..", "lean", "SstModel", "Generated", "Consts.lean")
 
 
 def read(name):
